@@ -347,8 +347,10 @@ impl fmt::Display for SignalType {
 ///   3. An optional version (applied when the CFG is converted to SSA form).
 /// The prefix of the loop counters which are introduced when anonymous
 /// components inside loops are removed. It is followed by the line and the
-/// offset of the loop (`anon_var_<line>_<offset>`).
-pub const GENERATED_COUNTER_PREFIX: &str = "anon_var_";
+/// offset of the loop. The prefix cannot begin an identifier of a program, so
+/// a counter is never taken for a variable of the user (or the other way
+/// round).
+pub const GENERATED_COUNTER_PREFIX: &str = "anon_var@";
 
 #[derive(Clone, Hash, PartialEq, Eq)]
 pub struct VariableName {
@@ -415,12 +417,7 @@ impl VariableName {
     /// program as written, so there is nothing to report about them.)
     #[must_use]
     pub fn is_generated_counter(&self) -> bool {
-        // The prefix alone is not enough, since it may begin a name chosen by the user.
-        let is_number = |part: &str| !part.is_empty() && part.bytes().all(|byte| byte.is_ascii_digit());
-        self.name
-            .strip_prefix(GENERATED_COUNTER_PREFIX)
-            .and_then(|suffix| suffix.split_once('_'))
-            .is_some_and(|(line, offset)| is_number(line) && is_number(offset))
+        self.name.starts_with(GENERATED_COUNTER_PREFIX)
     }
 
     /// Returns a new copy of the variable name with the version dropped.
